@@ -36,7 +36,7 @@ Member(st) ==
                [] ar.kind = "upd" -> ProposeUpdate(p)
                [] ar.kind = "psk" -> ProposePsk(p, ar.id)
                [] ar.kind = "rpsk" -> ProposeResumptionPsk(p, ar.pe)
-               [] ar.kind = "gce" -> ProposeGce(p)
+               [] ar.kind = "gce" -> ProposeGce(p, ar.ver \div 1000)
                [] ar.kind = "custom" -> ProposeCustom(p)
                [] ar.kind = "reinit" -> ProposeReinit(p))
       [] st.a = "DeliverProposal" -> DeliverProposal(p, ar.prop)
@@ -90,6 +90,6 @@ FEmit ==
     /\ PrintT(<<"FOLLOWED", bi, Len(hist)>>)
     /\ (Len(hist) = Len(Steps)) =>
           PrintT(<<"REPLAY", ToJson([bi |-> bi, cfg |-> [pathReq |-> opt.pathReq, enc |-> opt.enc, jit |-> opt.jit, retention |-> Retention, window |-> Window,
-                                               psk |-> pskStore, parties |-> Parties, creator |-> Creator],
+                                               psk |-> pskStore, parties |-> Parties, creator |-> Creator, capX |-> CapX, capY |-> CapY],
                                       steps |-> [i \in 1..Len(hist) |-> hist[i] @@ [aux |-> haux[i]]]])>>)
 =============================================================================
